@@ -167,6 +167,22 @@ def gen_pool_cases(rng, tier):
         if rng.random() < 0.3:
             w = weights_str([rng.choice(["1", "2", "0.5", "3", "1.25"]) for _ in range(L)])
         yield Case("distcpus", [m, rm, gm, alpha, rows_str(rows), w, "_", cpus], aln_nontrivial(rows), "distcpus")
+    # ---- many pairs, some of them undefined / saturated: the `2*max` substitute depends on a maximum that the
+    #      workers reduce together — it must not depend on who finishes last -----------------------------------
+    for _ in range(6 if quick else 60):
+        n = rng.randint(16, 40)
+        L = rng.randint(40, 120)
+        base = [rng.choice("ACGT") for _ in range(L)]
+        rows = []
+        for i in range(n):
+            if i % 7 == 3:
+                s = [rng.choice("ACGT") for _ in range(L)]       # unrelated: saturated against the others
+            else:
+                rate = rng.choice([0.02, 0.05, 0.1, 0.2, 0.3, 0.4])
+                s = [rng.choice("ACGT") if rng.random() < rate else b for b in base]
+            rows.append(("s%d" % i, "".join(s)))
+        m = rng.choice(["jc", "k2p", "f81", "tn93", "f84"])
+        yield Case("distcpus", [m, 0, 0, "0", rows_str(rows), "_", "_", cpus + ",2,8,16,3"], True, "distcpus-saturated")
     for _ in range(12 if quick else 120):
         rows = rand_alignment(rng, nrows=rng.randint(4, 8))
         n = len(rows)
